@@ -11,7 +11,7 @@ import itertools
 from fractions import Fraction
 
 from .. import gwl
-from ..core import dec, enc
+from ..core import dec
 from ..world import well_id
 
 ID = "C10"
@@ -128,7 +128,7 @@ def _expect(tip):
 # generated part
 # ---------------------------------------------------------------------------------------------
 def n_cases(tier):
-    return 9000 if tier == "quick" else 120000
+    return 9000 if tier == "quick" else 500000
 
 
 def _vol(rng):
@@ -270,7 +270,9 @@ def _run_ad(ctx, case):
                    "expected_mask": mask, "records": records, "raised": repr(exc)}
     if kind == "invalid":
         ctx.count("invalid:" + mask)
-        ctx.check("rejects_invalid_tip", exc is not None, det)
+        # mechanism: the empty string is an empty iterable -> accepted with the mask field "0"
+        key = "C10.empty_string_accepted" if isinstance(tip, str) and tip == "" else None
+        ctx.check("rejects_invalid_tip", exc is not None, det, key=key)
         if exc is not None:
             ctx.check("nothing_appended_on_reject", len(records) == 0, det)
         return
@@ -387,9 +389,11 @@ def _run_evo(ctx, case):
     ok = rec is not None and rec.type == "script" and rec.f["name"] == name
     if not ctx.check("evo_emits_one_well_formed_command", ok, det):
         return
-    # mechanism D10: repeated tip in the list of an EVO script command, accepted, mask differs from the OR
+    # mechanism D10: repeated tip in the list of an EVO script command, accepted, and the emitted mask is
+    # the arithmetic sum of the members' bit values instead of their OR
+    summed = sum(1 << (n_ - 1) for n_ in nums)
     ctx.check("evo_mask_is_or_of_distinct_tips", rec.f["mask"] == exp_mask, det,
-              key=None if distinct else "C10.evo_tip_sum")
+              key="C10.evo_tip_sum" if not distinct and rec.f["mask"] == summed else None)
     if ep == "evo_wash":
         return
     slots = rec.f["slots"]
